@@ -406,7 +406,7 @@ def shard(ctx: Ctx) -> None:
 
     _device.AUTO_ROTATE = True   # chunking of the device's stream rotates: as written / replies coalesced / cut into 1..8-byte pieces
     rng = ctx.rng.__class__(f"C11/{ctx.seed}")
-    n = 120000 if ctx.thorough else 16000
+    n = 400000 if ctx.thorough else 16000
     for i in range(n):
         script = gen_script(rng, "noise" if i % 5 == 0 else "plain")
         if ctx.mine(i):
